@@ -275,6 +275,48 @@ def rule_unknown_names(chk):
                        detail_ok='guard loop dominates lookup')
 
 
+def rule_no_shortcut(chk):
+    """the validator reaches its checks on every path: nothing returns before the names of dest / sources are validated, the arrays of the precomputed symbols are added and
+    the missing-property test is made; and what it validates is computed from the equation at hand, not looked up in module-level state"""
+    ae = M.py(AE)
+    fn = M.find_func(ae, 'check_equation_array_properties')
+    g = C.build_cfg(fn)
+    rets = [n for n in g.nodes if n.ast is not None and isinstance(n.ast, ast.Return)]
+    final = [n.id for n in g.nodes if n.kind == 'test' and isinstance(n.ast, ast.If) and 'errors' in M.unparse(n.ast.test) and any(isinstance(b, ast.Raise) for b in ast.walk(n.ast))]
+    dest = [n.id for n in g.nodes if n.kind == 'test' and isinstance(n.ast, ast.If) and 'equation.dest' in M.unparse(n.ast.test) and any(isinstance(b, ast.Raise) for b in n.ast.body)]
+    pre = [n.id for n in g.nodes if n.ast is not None and isinstance(n.ast, ast.Expr) and M.unparse(n.ast).replace(' ', '').startswith(('_src.update(', '_dest.update('))]
+    ok = bool(final) and bool(dest) and len(pre) >= 2
+    early = []
+    if ok:
+        for r in rets:
+            # a return is fine only after the final missing-property test
+            if not g.must_pass(g.entry, r.id, final):
+                early.append(r.ast.lineno)
+        ok = not early and g.must_pass(g.entry, final[0], dest) and all(g.must_pass(g.entry, final[0], [p_]) for p_ in pre)
+    chk.decide(ok, 'validation-on-every-path', 'check_equation_array_properties', node=fn, file=AE, func=fn.name,
+               detail_bad='some path leaves the validator (return at line(s) %s) before the destination / source names are validated, the arrays needed by precomputed symbols are added '
+                          'and the missing-property test is made: an equation with no explicit d_/s_ argument (only reduce / py_initialize, or only precomputed symbols) is accepted '
+                          'with a misspelt array name or missing u, v, w, rho, h' % early,
+               detail_ok='dest check, precomputed arrays and the missing-property test on every path')
+    # statelessness of what the validator consumes
+    eq = M.py(EQ)
+    glob = set()
+    for st in eq.body:
+        if isinstance(st, ast.Assign) and isinstance(st.targets[0], ast.Name) and (isinstance(st.value, (ast.Dict, ast.List, ast.Set)) or
+                                                                                 (isinstance(st.value, ast.Call) and M.call_name(st.value) in ('dict', 'list', 'set', 'defaultdict', 'OrderedDict'))):
+            glob.add(st.targets[0].id)
+    bad = []
+    for fname in ('get_arrays_used_in_equation', 'get_array_names'):
+        f = M.find_func(eq, fname)
+        for n in ast.walk(f):
+            if isinstance(n, ast.Name) and n.id in glob:
+                bad.append((fname, n.id, n.lineno))
+    chk.decide(not bad, 'validation-on-every-path', 'arrays-computed-from-the-equation-at-hand', node=M.find_func(eq, 'get_arrays_used_in_equation'), file=EQ, func='get_arrays_used_in_equation',
+               detail_bad='the d_/s_ names of an equation are looked up in module-level state %s: two different equation classes with the same name (PySPH ships several, e.g. SummationDensity) '
+                          'share one entry, so the second is validated - and gets its pointers set up - with the first one\'s arguments' % sorted(set((a, b) for a, b, c in bad)),
+               detail_ok='computed from the methods of the equation passed in')
+
+
 def rule_message(chk):
     ae = M.py(AE)
     eq = M.py(EQ)
@@ -499,6 +541,7 @@ def main(chk):
                        'emission (template dominance), validation dominates compilation.')
     rule_validator_coverage(chk)
     rule_unknown_names(chk)
+    rule_no_shortcut(chk)
     rule_message(chk)
     rule_steppers(chk)
     rule_ordering(chk)
